@@ -99,6 +99,18 @@ def translate(repo):
         if isinstance(n, ast.If) and ast.unparse(n.test) == 'le_acl_data_packet_length == 0 or total_num_le_acl_data_packets == 0':
             body = [ast.unparse(x) for x in n.body]
             share_cond_ok = body == ['self.le_acl_packet_queue = self.acl_packet_queue']
+    # event wiring: every (handle, count) entry of a Number_Of_Completed_Packets event is visited (no return / break
+    # inside the loop) and reported to its queue; a disconnection flushes the handle from all three queues
+    ncp = _fn(hostc, 'on_hci_number_of_completed_packets_event')
+    loops2 = [n for n in ast.walk(ncp) if isinstance(n, ast.For)]
+    visits_all = (len(loops2) == 1
+                  and not any(isinstance(n, (ast.Return, ast.Break)) for n in ast.walk(loops2[0]))
+                  and sum(1 for n in ast.walk(loops2[0]) if isinstance(n, ast.Call) and isinstance(n.func, ast.Attribute)
+                          and n.func.attr == 'on_packets_completed') == 1)
+    disc = _fn(hostc, 'on_hci_disconnection_complete_event')
+    flushed = sorted(ast.unparse(n.func.value) for n in ast.walk(disc)
+                     if isinstance(n, ast.Call) and isinstance(n.func, ast.Attribute) and n.func.attr == 'flush')
+    flushes_all = flushed == ['self.acl_packet_queue', 'self.iso_packet_queue', 'self.le_acl_packet_queue']
     pipe = _cls(utils, 'FlowControlAsyncPipe')
     w, pause, resume, pump = (_fn(pipe, n) for n in ('write', 'pause', 'resume', 'pump'))
     p_in = _one_of(w, ['queue'], ['append', 'appendleft'])
@@ -114,7 +126,9 @@ Record shape := mkShape {{
   p_in_side : side; p_out_side : side;        (* FlowControlAsyncPipe.write / pump *)
   p_write_checks : bool; p_pause_checks : bool; p_resume_checks : bool; p_pump_checks : bool;  (* check_pump() *)
   h_queues_from_reported_buffers : bool;      (* Host.reset builds each queue from the controller-reported length/count *)
-  h_le_shares_acl_queue_when_no_le_buffers : bool  (* LE buffer size 0/0 => le queue IS the acl queue *)
+  h_le_shares_acl_queue_when_no_le_buffers : bool;  (* LE buffer size 0/0 => le queue IS the acl queue *)
+  h_completed_event_visits_every_entry : bool;     (* no return / break in the per-handle loop; one on_packets_completed call *)
+  h_disconnection_flushes_all_queues : bool
 }}.
 Definition shape_of_source : shape := mkShape
   {'SLeft' if q_in == 'appendleft' else 'SRight'} {'SLeft' if q_out == 'popleft' else 'SRight'}
@@ -122,6 +136,6 @@ Definition shape_of_source : shape := mkShape
   {_b(_calls(enq, ['_check_queue']) >= 1)} {_b(_calls(flush, ['_check_queue']) >= 1)} {_b(_calls(done, ['_check_queue']) >= 1)}
   {'SLeft' if p_in == 'appendleft' else 'SRight'} {'SLeft' if p_out == 'popleft' else 'SRight'}
   {_b(_calls(w, ['check_pump']) >= 1)} {_b(_calls(pause, ['check_pump']) >= 1)} {_b(_calls(resume, ['check_pump']) >= 1)} {_b(_calls(pump, ['check_pump']) >= 1)}
-  {_b(queues_ok)} {_b(shares and share_cond_ok)}.
+  {_b(queues_ok)} {_b(shares and share_cond_ok)} {_b(visits_all)} {_b(flushes_all)}.
 '''
     return text
